@@ -171,7 +171,19 @@ def record(data: bytes, rng, force_windows=False) -> dict:
         for _ in range(3):
             s = rng.randint(0, n)
             cand.append((s, rng.randint(0, n - s)))
-    for s, ln in cand:
+    # calls outside the domain (window past the end, other buffer types) happen between the judged ones: whatever they do,
+    # they must not change what a later call in the domain returns
+    outside = [lambda: F.compute_checksum(data, max(0, n - 2), 8), lambda: F.compute_checksum(data[:3], 0, 8),
+               lambda: F.compute_checksum(b"", 0, 1), lambda: F.compute_checksum(data, n, 2), lambda: F.compute_checksum(None, 0, 1)]
+    cand = cand[:3] + [None] + cand[:1] + cand[3:] + [None, (0, n)]
+    for k, c in enumerate(cand):
+        if c is None:
+            try:
+                outside[(k + n) % len(outside)]()
+            except Exception:  # noqa: BLE001
+                pass
+            continue
+        s, ln = c
         try:
             wins.append({"start": s, "length": ln, "ret": int(F.compute_checksum(data, s, ln))})
         except Exception:  # noqa: BLE001
